@@ -915,6 +915,11 @@ let run_ui (wd : uworld) preload width height root feeds keys ~frames ~hooks =
   let runt s t = run_task pre parents children harvest hook_fails s t in
   let settle_all s = settle pre parents children harvest hook_fails (nat_of_int 1000) s in
   let settle_g s = settle_gated pre parents children harvest hook_fails (nat_of_int 1000) s in
+  (* tokens 262 a b p / 263: the fetch of a page that is being opened is held / released (only the installing task waits) *)
+  let held = ref false in
+  let gated_r = ref false in
+  let settle_h s = settle_sel pre parents children harvest hook_fails
+      (fun t -> (not !gated_r || not (is_load t)) && not (is_open t)) (nat_of_int 1000) s in
   let str s = List.map (fun ch -> n_of_int (Char.code ch)) (List.init (String.length s) (String.get s)) in
   let rec rep k s = if k <= 0 then "" else s ^ rep (k - 1) s in
   let full_text i w = str (Printf.sprintf "full %d w%d%s" i (int_of_z w) (rep (i mod 3) (Printf.sprintf "\nmore of %d" i))) in
@@ -936,22 +941,24 @@ let run_ui (wd : uworld) preload width height root feeds keys ~frames ~hooks =
   let hook_of s = List.fold_left (fun acc t -> match t with THook l -> l | _ -> acc) [] s.u_tasks in
   let rec go ks = match ks with
     | [] -> ()
-    | 256 :: r -> gated := true; out := !out @ snap !st []; go r
-    | 257 :: r -> gated := false; st := settle_all !st; out := !out @ snap !st []; go r
+    | 256 :: r -> gated := true; gated_r := true; out := !out @ snap !st []; go r
+    | 257 :: r -> gated := false; gated_r := false; st := (if !held then settle_h !st else settle_all !st); out := !out @ snap !st []; go r
     | 259 :: r -> hook_failing := true; out := !out @ snap !st []; go r
+    | 262 :: _ :: _ :: _ :: r -> held := true; out := !out @ snap !st []; go r
+    | 263 :: r -> held := false; st := (if !held then settle_h !st else if !gated then settle_g !st else settle_all !st); out := !out @ snap !st []; go r
     | 260 :: k :: r ->
       (* observed right after the key (the hook task, if any, still pending) and again when settled *)
       st := upd !st k;
       out := !out @ snap !st [];
-      st := (if !gated then settle_g !st else settle_all !st);
+      st := (if !held then settle_h !st else if !gated then settle_g !st else settle_all !st);
       out := !out @ snap !st []; go r
     | 258 :: w :: h :: r ->
       st := resize !st (z_of_int w) (z_of_int h);
-      st := (if !gated then settle_g !st else settle_all !st); out := !out @ snap !st []; go r
+      st := (if !held then settle_h !st else if !gated then settle_g !st else settle_all !st); out := !out @ snap !st []; go r
     | k :: r ->
       st := upd !st k;
       let hooked = hook_of !st in
-      st := (if !gated then settle_g !st else settle_all !st);
+      st := (if !held then settle_h !st else if !gated then settle_g !st else settle_all !st);
       out := !out @ snap !st hooked; go r in
   go keys;
   !out
